@@ -63,6 +63,8 @@ package tools
 //@   modifies ghost lastcopy, ghost wbuf, ghost rrest, ghost fdata[fpath(copy_target(writer))]
 //@   ensures result1 == nil && dyntype(writer, "*os.File") && dyntype(reader, "*github.com/git-lfs/git-lfs/v3/tools.HashingReader") && old(rrest(writer)) == "" ==> fdata(fpath(ptr_as(writer, "os.File"))) == scat(old(fdata(fpath(ptr_as(writer, "os.File")))), lastcopy()) && wbuf(ptr_as(reader, "github.com/git-lfs/git-lfs/v3/tools.HashingReader").hasher) == scat(old(wbuf(ptr_as(reader, "github.com/git-lfs/git-lfs/v3/tools.HashingReader").hasher)), lastcopy())
 //@   ensures result1 == nil ==> rrest(writer) == ""
+//@   ensures result1 == nil && dyntype(writer, "*os.File") && !dyntype(reader, "*github.com/git-lfs/git-lfs/v3/tools.HashingReader") && old(rrest(writer)) == "" ==> fdata(fpath(ptr_as(writer, "os.File"))) == scat(old(fdata(fpath(ptr_as(writer, "os.File")))), old(rrest(reader)))
+//@   ensures result1 == nil && !dyntype(writer, "*os.File") && !is_tee(writer) ==> wbuf(writer) == scat(old(wbuf(writer)), old(rrest(reader))) && result0 == len(old(rrest(reader)))
 //@   ensures result1 == nil && is_tee(writer) && is_sha256(tee_a(writer)) && dyntype(tee_b(writer), "*os.File") && old(rrest(tee_b(writer))) == "" ==> wbuf(tee_a(writer)) == scat(old(wbuf(tee_a(writer))), old(rrest(reader))) && fdata(fpath(ptr_as(tee_b(writer), "os.File"))) == scat(old(fdata(fpath(ptr_as(tee_b(writer), "os.File")))), old(rrest(reader))) && result0 == len(old(rrest(reader)))
 //@   ensures !err_cleanptr(result1)
 
